@@ -236,7 +236,7 @@ class LogicDense(torch.nn.Module):
         return x
 
     def _check_gumbel_temperature(self):
-        if self.temperature <= 0:
+        if not self.temperature > 0:
             raise ValueError("Temperature must be positive")
 
     def forward_cuda(self, x):
